@@ -721,6 +721,9 @@ theorem interpolate_idempotent (tr : Track) (hne : tr.pts ≠ []) :
   unfold Track.interpolate
   simp only [interpolate_idem tr.pts hne]
 
+example : (⟨[(0, 1), (2, 2)], some 1, some [3, 4]⟩ : Track).interpolate.interpolate
+    = ⟨[(0, 1), (1, 3 / 2), (2, 2)], some 1, none⟩ := by decide +kernel
+
 /-- **centroid refinement of already refined tracks fills the same lines**: refining twice returns
     tracks on exactly the scan lines of refining once (whatever the two estimators do). -/
 theorem refine_refine_span (f f' : Int → Rat → Rat) (s s' : Int → Rat → Int) (g : List Track)
@@ -746,6 +749,9 @@ theorem refine_refine_span (f f' : Int → Rat → Rat) (s s' : Int → Rat → 
   have hc : ∀ h : Int → Rat → Rat, ((fun x : Pt => x.1) ∘ fun p : Pt => (p.1, h p.1 p.2)) = fun p => p.1 :=
     fun _ => rfl
   rw [hc, hc, interpolate_times_eq, interpolate_times_eq, h1, h2]
+
+example : (refineCentroid (fun _ c => c + 1) (fun _ _ => 7) (refineCentroid (fun _ c => c) (fun _ _ => 0)
+    [⟨[(2, 1), (5, 2)], none, none⟩])).map (·.times) = [[2, 3, 4, 5]] := by decide +kernel
 
 /-- **filtering twice = filtering once with both thresholds**: the tracks kept are those meeting both
     pairs of thresholds and the minimum observable duration is the maximum of the old value and both
@@ -971,6 +977,11 @@ theorem roundtrip_twice (k : Kymo) (hpx : k.px ≠ 0) (sample : Option (Int → 
       refine ⟨fmt6e d, by simp [reimported, mdOf, hd], ?_⟩
       exact fmt6e_idempotent d (hr tr htr d hd)
 
+example : ∃ g', roundtrip ⟨3 / 5, some (1 / 10), 1 / 8⟩ (some (sumSignal [[1, 2, 3], [4, 5, 6]] 1 (1 / 2))) fmt6e
+      [⟨[(0, 1 / 2), (1, 3 / 2)], some (1 / 3), none⟩] = .ok g' ∧
+    roundtrip ⟨3 / 5, some (1 / 10), 1 / 8⟩ (some (sumSignal [[1, 2, 3], [4, 5, 6]] 1 (1 / 2))) fmt6e g' = .ok g' :=
+  ⟨[⟨[(0, 1 / 2), (1, 3 / 2)], some (3333333 / 10000000), some [6, 11]⟩], by decide +kernel, by decide +kernel⟩
+
 /-! ## sampled photon counts (`_sum_track_signal`) -/
 
 /-- **The sampled count is the sum over the pixels of the scan line within `w` of the centre pixel**
@@ -1001,6 +1012,8 @@ theorem sumSignal_spec (img : List (List Int)) (w : Nat) (off : Rat) (t : Int) (
 
 example : sumSignal [[1, 2, 3, 4, 5]] 1 (1 / 2) 0 (1 / 4) = 3 ∧ sumSignal [[1, 2, 3, 4, 5]] 1 (1 / 2) 0 (15 / 4) = 9 := by
   decide +kernel
+
+example : (0 : Int) ≤ trunc (1 / 4 + 1 / 2) + ((1 : Nat) : Int) + 1 := by decide +kernel
 
 /-- the hypothesis is necessary (kernel-checked witness): a centre pixel more than `w + 1` left of the
     image makes the stop of the slice negative, Python counts it from the END of the line, and the
@@ -1165,6 +1178,65 @@ theorem centroid_refinement_fills_span (eps : Rat) (img : List (List Rat)) (h : 
   simp only [Function.comp, Track.times, List.map_map]
   rw [mapM_option_fst _ _ b hb]
   rfl
+
+
+example : refineCentroidCoords (1 / 10000000) [[0, 1, 2, 1, 0], [0, 1, 2, 1, 0], [0, 1, 2, 1, 0]] 2
+    [⟨[(0, 2), (2, 2)], none, none⟩] = some [[(0, 2), (1, 2), (2, 2)]] := by decide +kernel
+
+/-- the hypothesis of `centroid_window_mean` on a concrete line -/
+example : (∑ q ∈ Finset.range [0, 1, 3, 0, 0].length,
+    if (2 : Int) - (2 : Nat) ≤ (q : Int) ∧ (q : Int) ≤ 2 + (2 : Nat) then pix [0, 1, 3, 0, 0] q else 0) + (1 / 10000000 : Rat) ≠ 0 := by
+  simp [Finset.sum_range_succ, pix]
+  norm_num
+
+theorem absRat_eq (x : Rat) : absRat x = |x| := by
+  unfold absRat
+  split
+  · rename_i h; rw [abs_of_neg h]
+  · rename_i h; rw [abs_of_nonneg (not_lt.1 h)]
+
+/-- **where the walk stops**: the refined coordinate lies within half a pixel of the centre of the pixel
+    the loop stopped on — unless that pixel is the first or the last one of the scan line, where the
+    clamp `coordinates[low] = 0` / `coordinates[high] = n − 1` ends the walk. -/
+theorem centroid_settled_offset (eps : Rat) (img : List (List Rat)) (h : Nat) (t : Int) (x y : Rat)
+    (hy : centroidCoord eps img h t x = some y) :
+    ∃ c : Int, y = (c : Rat) + subpixelOffset eps ((pyIndex img t).getD []) h c ∧
+      (|y - (c : Rat)| ≤ 1 / 2 ∨ c = 0 ∨ c = (((pyIndex img t).getD []).length : Int) - 1) := by
+  unfold centroidCoord at hy
+  simp only at hy
+  generalize (pyIndex img t).getD [] = line at *
+  cases hst : settle eps line h 99 (roundHalfEven x) with
+  | none => simp [hst] at hy
+  | some c =>
+    simp only [hst, Option.map_some, Option.some.injEq] at hy
+    refine ⟨c, hy.symm, ?_⟩
+    have hstable := settle_stable eps line h 99 _ c hst
+    unfold stepCoord at hstable
+    simp only at hstable
+    by_cases hbig : 1 / 2 < absRat (subpixelOffset eps line h c)
+    · right
+      simp only [hbig, if_true] at hstable
+      have hs : signInt (subpixelOffset eps line h c) ≠ 0 := by
+        unfold signInt
+        split
+        · omega
+        · split
+          · omega
+          · rename_i h1 h2
+            have h0 : subpixelOffset eps line h c = 0 := le_antisymm (not_lt.1 h1) (not_lt.1 h2)
+            rw [h0] at hbig
+            unfold absRat at hbig
+            norm_num at hbig
+      split at hstable
+      · left; omega
+      · split at hstable
+        · right; omega
+        · omega
+    · left
+      rw [← hy, add_sub_cancel_left, ← absRat_eq]
+      exact not_lt.1 hbig
+
+example : centroidCoord (1 / 10000000) [[5, 1, 0, 0]] 1 0 0 = some (1 / (6 + 1 / 10000000)) := by decide +kernel
 
 
 end Verif.C17
